@@ -162,8 +162,63 @@ def flush_points(bi):
     return [s for s in bi.sites if s.callee.name == "flush" and s.callee.trait == "Consumer"]
 
 
-def send_points(bi):
-    return [s for s in bi.sites if s.callee.name == "send" and s.callee.trait == "Consumer"]
+class SendPoint:
+    """A place where an item future is handed to the consumer: `consumer.send(fut)` itself, or a call of
+    a crate-local `async fn` wrapper whose body does exactly one `consumer.send(ready(item)).await` on
+    its own parameters (the drive loop's send/match block moved into a helper)."""
+
+    def __init__(self, site, consumer, item_future, wrapper=None):
+        self.site = site
+        self.block = site.block
+        self.where = site.where
+        self.consumer = consumer
+        self.item_future = item_future     # term of the future handed over
+        self.wrapper = wrapper             # None | {"break_when": True/False/None}
+
+    def arg(self, i):
+        return (self.consumer, self.item_future)[i] if i < 2 else None
+
+
+def send_points(bi, M=None):
+    out = []
+    for s in bi.sites:
+        if s.callee.name == "send" and s.callee.trait == "Consumer":
+            out.append(SendPoint(s, s.arg(0), s.arg(1)))
+        elif M is not None and s.callee.local and not s.callee.indirect and s.callee.trait is None:
+            fn_body = M.by_cdef.get(s.callee.cpath)
+            co = M.coroutine_of(fn_body) if fn_body is not None else None
+            if co is None:
+                continue
+            ci = M.info(co)
+            inner = [x for x in ci.sites if x.callee.name == "send" and x.callee.trait == "Consumer"]
+            aw = awaits(ci)
+            if len(inner) != 1 or len(aw) != 1 or aw[0].fut is None or aw[0].fut[0] != "call" or aw[0].fut[3] != inner[0].block:
+                continue
+            # upvars of the wrapper coroutine are the wrapper's parameters in order
+            def up(t):
+                return t[2] if t is not None and t[0] == "field" and t[1] == ("param", 1) and isinstance(t[2], int) else None
+            ck = up(inner[0].arg(0))
+            fut = inner[0].arg(1)
+            ik = None
+            if fut is not None and fut[0] == "call" and fut[1][1] == "ready" and fut[2]:
+                ik = up(fut[2][0])
+            if ck is None or ik is None or ck >= len(s.args) or ik >= len(s.args):
+                continue
+            # result: `matches!(.., ConsumerState::Break)` -> bool
+            brk = None
+            from . import flow as _flow
+            rv = _flow.returned_values(ci)
+            val = aw[0].value
+            for e in ci.switches:
+                if e["kind"] == "discr" and e["subject"] == val and ci.edge(e, "Break"):
+                    be = ci.edge(e, "Break")
+                    trues = [b for b, k, p, t in rv if t == ("const", 1)]
+                    falses = [b for b, k, p, t in rv if t == ("const", 0)]
+                    if trues and all(ci.guarded_by(b, [be]) for b in trues) and falses and not any(ci.guarded_by(b, [be]) for b in falses):
+                        brk = True
+            item_t = s.arg(ik)
+            out.append(SendPoint(s, s.arg(ck), ("call", ("core::future::ready", "ready"), (item_t,), s.block), wrapper={"break_when": brk}))
+    return out
 
 
 def check_drive_src(ctx, M, drive_body, rule):
